@@ -1,5 +1,5 @@
 From Coq Require Import List ZArith Bool Arith Lia Sorted Permutation.
-From DF Require Import Base.Prelude Base.Bits Gen.StrengthReduced Model.Repartition
+From DF Require Import Base.Prelude Base.Bits Gen.StrengthReduced Model.Repartition Model.RepartitionSpill
   Proofs.RepartitionProofs Proofs.RepartitionRouting Proofs.RepartitionExchange Props.C10.
 Import ListNotations.
 Close Scope Z_scope.
@@ -79,6 +79,10 @@ Check C10_routed_streams_sorted : forall (le : xrow -> xrow -> Prop) s p batches
     (StronglySorted le (concat batches) -> StronglySorted le l).
 Check C10_routed_is_prun : forall sc p batches next l,
   routed sc next batches p = Some l -> snd (prun xrow Z (tstep sc) next batches p) = l.
+Check C10_shared_spill_pool_deadlock_refuted :
+  exists sched st, srun (sinit [1; 3]) sched = Some st /\ stuck st = true /\ delivered st = 1 /\
+    files st = [(1, false); (3, false)] /\ rd_spilled st = true /\ chan st = 1.
+Print Assumptions C10_shared_spill_pool_deadlock_refuted.
 Print Assumptions C10_routing_partition.
 Print Assumptions C10_hash_router.
 Print Assumptions C10_range_router.
